@@ -81,6 +81,15 @@ def gen_T10():
     i_del, i_set = un.find('del self.nicksToHostmasks[oldNick]'), un.find('self.nicksToHostmasks[newNick] = newHostmask')
     need(0 <= i_del < i_set, 'IrcState.doNick: expected `del nicksToHostmasks[oldNick]` before `nicksToHostmasks[newNick] = ...`')
     irc = find_class(t, 'Irc')
+    # Irc.isChannel hands ISUPPORT CHANTYPES / CHANNELLEN down to ircutils.isChannel (whose body is pinned in T03)
+    need(re.sub(r'\s+', ' ', ast.unparse(ast.Module(body=_cls_def(irc, 'isChannel').body[1:], type_ignores=[]))) ==
+         "kw = {} chantypes = self.state.supported.get('chantypes') if chantypes is not None: kw['chantypes'] = chantypes "
+         "channellen = self.state.supported.get('channellen') if channellen is not None: kw['channellen'] = channellen "
+         "return ircutils.isChannel(s, **kw)", 'Irc.isChannel changed shape')
+    dm = ast.unparse(_cls_def(st, 'doMode'))
+    need('if irc.isChannel(channel):' in dm and 'chan.doMode(msg)' in dm, 'IrcState.doMode changed shape: ' + dm)
+    conv = [n for n in st.body if isinstance(n, ast.Assign) and ast.unparse(n.targets[0]) == '_005converters']
+    need(len(conv) == 1 and "'channellen': int" in ast.unparse(conv[0]), 'IrcState._005converters: channellen is no longer int')
     ns = None
     for n in irc.body:
         if isinstance(n, ast.Assign) and ast.unparse(n.targets[0]) == '_nickSetters':
